@@ -30,7 +30,7 @@ CHECKS = {
         note="ranges are taken from the property text, re-derived per stage from the values at the start of that stage"),
     "C09": dict(engine="e3-replicas (shuttle + sim-rayon)", cat="exploration", ref="DESIGN.md 5.C09",
         text="The unmodified src/main.rs replica pipeline runs on a simulated rayon whose workers are shuttle threads: output bytes are compared with the one-worker reference across seeded schedules, 1..16 workers, repeats and restarts; single-index delivery gives per-replica results; a vector-clock monitor on SharedValue accesses looks for unsynchronised cross-task access.",
-        note="rayon is a stub (sim-rayon); schedules are sampled by shuttle's seeded random/PCT schedulers, not enumerated"),
+        note="rayon is a stub (sim-rayon, patched in for the library as well); main.rs sees shuttle's std::sync/std::thread through a shim; schedules are sampled by shuttle's seeded random/PCT schedulers, not enumerated; every scenario runs in a fresh child process"),
     "C10": dict(engine="e3-replicas + e4-cliproc", cat="exploration", ref="DESIGN.md 5.C10",
         text="Per-replica results obtained from the real pipeline through single-index delivery are compared with what the full run writes (max, prefix monotone in k, logged score = score of the written file) under varying reduction trees; the shipped binary is run over group x shape x potential x replications and its JSON labels/family/shape/copies compared with the request.",
         note="sim-rayon stub for the in-process part; the process part uses the shipped binary with RAYON_NUM_THREADS=1"),
